@@ -42,6 +42,7 @@ def Den : Pipe → List V → Prop
         l = l0 ++ ls.flatten)
   | .zip ps _, l => ∃ ls, DenList ps ls ∧ l = Spec.zipRows ls
   | .merge ps _ slots, l =>
+      (ps.length = 0 ∧ l = []) ∨
       ∃ st, DenList ps (st.map Prod.snd) ∧ MergeInv (slots.getD (List.replicate ps.length none)) st l
   | .window s st o buf d _ p, l =>
       windowParamsOk s st = true ∧
@@ -188,10 +189,10 @@ theorem emit_filter {fuel : Nat} (ih : EmitOK fuel) (g : Pred) (p : Pipe) (l : L
     rename_i x
     by_cases hg : g.app x = true
     · rw [if_pos hg]
-      simp only [StepOK]
-      exact ⟨xs.filter g.app, by simp [List.filter_cons, hg], hc, by rw [Den]; exact ⟨xs, h3, rfl⟩⟩
+      simp only
+      exact ⟨xs.filter g.app, by simp [hg], hc, by rw [Den]; exact ⟨xs, h3, rfl⟩⟩
     · rw [if_neg hg]
-      have : List.filter g.app (x :: xs) = xs.filter g.app := by simp [List.filter_cons, hg]
+      have : List.filter g.app (x :: xs) = xs.filter g.app := by simp [hg]
       rw [this]
       exact ih _ _ _ (by rw [Den]; exact ⟨xs, h3, rfl⟩) hc
   · obtain ⟨rfl, h2, h3⟩ := h
